@@ -61,7 +61,7 @@ func RunRetrieve(c *Ctx) {
 				for j := 0; j < n && i < len(items); j++ {
 					for k := rng.Intn(3); k > 0; k-- {
 						g := HeaderBlob(s.headerOf(s.ih))
-						s.w.DA.Place(dah, junk(rng, g))
+						s.placeJunk(dah, junk(rng, g))
 					}
 					it := items[i]
 					i++
@@ -78,7 +78,7 @@ func RunRetrieve(c *Ctx) {
 				// scripted fetch outcomes before the height can be read
 				var script []string
 				for k := rng.Intn(3); k > 0; k-- {
-					o := []string{"future", "errlist", "errchunk:0", "errlist", "future", "deadline", "canceled"}[rng.Intn(7)]
+					o := []string{"future", "errlist", "errchunk:0", "errlist", "future", "deadline", "canceled", "errchunk:0:notfound", "errchunk:0:future", "errchunk:0:deadline"}[rng.Intn(10)]
 					if big && rng.Intn(2) == 0 {
 						o = "errchunk:1"
 					}
@@ -116,4 +116,18 @@ func RunRetrieve(c *Ctx) {
 			c.Count("retrieveruns", 1)
 		})
 	}
+}
+
+// placeJunk puts a damaged copy of a genuine blob on the DA layer. A damaged copy may still BE the genuine
+// item (for instance a flipped byte inside a field the decoder ignores): then the DA layer really holds
+// the proposer's header at that height as well, and the trace says so.
+func (s *syncRun) placeJunk(dah uint64, b []byte) {
+	cl := s.w.ClassifyBlob(b)
+	if cl["kind"] == "hdr" && cl["sig"] == "P" {
+		h := uint64(cl["h"].(int))
+		if h >= s.ih && h <= s.top && cl["hash"] == world.Short(s.headerOf(h).Hash().String()) {
+			s.c.Tr.Emit("Deliver", world.F{"node": "full", "kind": "hdr", "h": int(h), "via": "da", "dah": int(dah)})
+		}
+	}
+	s.w.DA.Place(dah, b)
 }
